@@ -171,6 +171,8 @@ def get_formatter(format: Format) -> typing.Callable[[str], str]:
 
 
 class PythonCodeGenerator(CodeGenerator):
+    reserved_names = CodeGenerator.reserved_names | {"numpy", "len"}
+
     def __init__(self, ode: ODE, format: Format = Format.black, *args, **kwargs) -> None:
         super().__init__(ode, *args, **kwargs)
 
